@@ -623,8 +623,8 @@ wait:
 }
 
 // chainReal: one real witness, one adapter (as omniwitness.Main hands the same adapter to every feeder),
-// a growing honest log. Steps alternate between feed cycles through the adapter and updates that reach the
-// witness directly (as the HTTP and bastion endpoints do). Every feed cycle must succeed and leave the
+// a growing honest log. Steps alternate between feed cycles and updates by another caller of the same adapter
+// (as the bastion handler is). Every feed cycle must succeed and leave the
 // witness at the log's size, and what the adapter reports as latest must be what the witness holds.
 func chainReal(run *ev.Run, unit int64, r *rand.Rand, dir string) {
 	u := gen.NewUniverse(r, gen.Opts{NLogs: 1, MaxSize: 64, Branches: 1})
@@ -667,13 +667,33 @@ func chainReal(run *ev.Run, unit int64, r *rand.Rand, dir string) {
 			next = 1 + uint64(r.IntN(4))
 		}
 		if i > 0 && r.IntN(2) == 0 {
-			// another entry point moves the witness
-			if _, err := rn.W.Update(context.Background(), l.ID, size, l.Honest(0, next), l.Branches[0].Consistency(size, next)); err != nil {
-				run.Inconclusive(fmt.Sprintf("direct honest update %d->%d refused: %v", size, next, err))
+			// another caller moves the witness - through the SAME adapter, as every update of the assembled
+			// service does (Main hands one adapter to all feeders and to the bastion handler; its HTTP server
+			// only reads). In a third of these the store commits and then reports an error.
+			lost := r.IntN(3) == 0
+			if lost {
+				armed := true
+				hook.SetHook(func(gotOp, id string) error {
+					if armed && gotOp == seams.OpWSetAfter {
+						armed = false
+						run.Count("chain_updates_committed_but_reported_failed")
+						return errors.New("injected: commit outcome unknown")
+					}
+					return nil
+				})
+			}
+			_, err := adapter.Update(context.Background(), l.ID, size, l.Honest(0, next), l.Branches[0].Consistency(size, next))
+			hook.SetHook(nil)
+			if err != nil && !lost {
+				run.Inconclusive(fmt.Sprintf("honest update %d->%d through the adapter refused: %v", size, next, err))
 				return
 			}
-			trace = append(trace, fmt.Sprintf("direct %d->%d", size, next))
-			size = next
+			trace = append(trace, fmt.Sprintf("other caller %d->%d (err=%v)", size, next, err))
+			if n, perr := refnote.Parse(truth()); perr == nil {
+				if cp, perr := refnote.ParseCheckpoint(n.Text); perr == nil {
+					size = cp.Size
+				}
+			}
 			continue
 		}
 		s := &script{l: l}
@@ -715,7 +735,7 @@ func chainReal(run *ev.Run, unit int64, r *rand.Rand, dir string) {
 		trace = append(trace, fmt.Sprintf("feed %d->%d: err=%v", size, next, ferr))
 		run.Count("evaluations")
 		run.Count("chain_cycles")
-		run.Distinct("nontrivial", fmt.Sprintf("chain/step%d/after_direct=%v", i, i > 0 && strings.HasPrefix(trace[len(trace)-2], "direct")))
+		run.Distinct("nontrivial", fmt.Sprintf("chain/step%d/after_direct=%v", i, i > 0 && strings.HasPrefix(trace[len(trace)-2], "other caller")))
 		detail := map[string]any{"trace": trace, "events": summarize(s.events, evs), "store": st.Kind}
 		if len(w.stale) > 0 {
 			detail["adapter"] = w.stale
